@@ -80,6 +80,11 @@ func (e *Eng) block(stmts []ast.Stmt, st *State) []Out {
 			next = append(next, e.stmt(s, o.st)...)
 		}
 		outs = next
+		for _, o := range outs {
+			if !o.st.dead {
+				e.nameHeaps(o.st)
+			}
+		}
 		if len(outs) > e.maxPaths() {
 			panic(fmt.Sprintf("path explosion: %d paths", len(outs)))
 		}
@@ -137,7 +142,7 @@ func (e *Eng) assignTo(lhs ast.Expr, v Val, st *State, define bool) {
 			e.storeGlobal(st, vo, v)
 			return
 		}
-		st.vars[vo] = v
+		st.vars[vo] = e.nameTerm(st, v, vo.Name())
 	case *ast.IndexExpr:
 		base := e.eval(l.X, c)
 		idx := e.eval(l.Index, c)
@@ -325,6 +330,11 @@ func (e *Eng) stmt(s ast.Stmt, st *State) []Out {
 		if len(s.Results) == 0 && len(e.retVars) > 0 {
 			for _, o := range e.retVars {
 				vals = append(vals, st.vars[o])
+			}
+		}
+		if len(vals) == len(e.curRes) {
+			for i := range vals {
+				vals[i] = e.copyVal(st, e.coerce(vals[i], e.curRes[i], c))
 			}
 		}
 		return []Out{{st: st, kind: Return, rets: vals}}
@@ -626,13 +636,14 @@ func (e *Eng) runDefers(st *State) []*State {
 				continue
 			}
 			if d.lit != nil {
-				saved := e.retVars
+				saved, savedRes := e.retVars, e.curRes
+				e.curRes = nil
 				for _, o := range e.block(d.lit.Body.List, s) {
 					if !o.st.dead {
 						next = append(next, o.st)
 					}
 				}
-				e.retVars = saved
+				e.retVars, e.curRes = saved, savedRes
 				continue
 			}
 			c := e.pctx(s)
@@ -938,6 +949,10 @@ func (e *Eng) havocSet(a *assignedSet, st *State) {
 		}
 		if old, ok := st.vars[o]; ok {
 			nv := e.symFor(o.Name(), o.Type(), st)
+			if nv.K == KSlice && e.owned[o] {
+				// nil or allocated by this function: never a caller's array
+				st.assume("(<= " + nv.Ref + " 0)")
+			}
 			switch o.Type().Underlying().(type) {
 			case *types.Struct, *types.Array:
 				// value cells keep their identity; contents are forgotten
